@@ -123,13 +123,13 @@ def monthShift (y m k : Int) : Int × Int :=
 
 /-- `DATE(y, m, d)` for whole arguments: years below 1900 count from 1900; months and days outside
     their ranges carry into the next units; `none` = an error value (year outside 0 … 9999 or a
-    result before 1900-01-01) -/
+    result outside 1900-01-01 … 9999-12-31) -/
 def date (y m d : Int) : Option Int :=
   if y < 0 ∨ y > 9999 then none else
   let y' := if y < 1900 then y + 1900 else y
   let ym := monthShift y' 1 (m - 1)
   let s := serialOfOrdinal (ordinal ⟨ym.1, ym.2, 1⟩ + (d - 1))
-  if s < 1 then none else some s
+  if s < 1 ∨ s > maxSerial then none else some s
 
 /-- `c` moved by `k` whole months, the day clipped to the end of the target month -/
 def addMonths (c : Date) (k : Int) : Date :=
@@ -138,14 +138,14 @@ def addMonths (c : Date) (k : Int) : Date :=
 
 def endOfMonth (c : Date) : Date := ⟨c.y, c.m, daysInMonth c.y c.m⟩
 
-/-- `none` = an error value: the result lies before 1900-01-01 -/
+/-- `none` = an error value: the result lies outside 1900-01-01 … 9999-12-31 -/
 def edate (c : Date) (k : Int) : Option Int :=
   let s := serialOf (addMonths c k)
-  if s < 1 then none else some s
+  if s < 1 ∨ s > maxSerial then none else some s
 
 def eomonth (c : Date) (k : Int) : Option Int :=
   let s := serialOf (endOfMonth (addMonths c k))
-  if s < 1 then none else some s
+  if s < 1 ∨ s > maxSerial then none else some s
 
 -- ---------------------------------------------------------------- DATEDIF, YEARFRAC
 
